@@ -4,7 +4,9 @@
    read back from build.json).
 
    A signature is a sequence of parameters [id, ptr, const, dt] (dt: a DtypeOps tree; id names the
-   OKL spelling, see MC_KernelArgs).  An argument is [k, dt, id] with k = "mem" (an occa::memory
+   OKL spelling, see MC_KernelArgs).  The element dtype of a parameter is the dtype of its DECLARED
+   spelling (ElemOf in MC_KernelArgs: what occa::dtype::get<T>() is for that C type; a fixed array
+   T a[n] is the tuple of n such elements) -- written down from the spelling, not from the parser.  An argument is [k, dt, id] with k = "mem" (an occa::memory
    whose element type is dt), "scalar" (a plain value) or "null" (occa::null).
 
    INTENDED decision (the three clauses of the statement, nothing else):
@@ -23,6 +25,8 @@ EXTENDS DtypeOps, Json, SequencesExt
 
 CONSTANTS ParamTypes,     \* set of parameters [id, ptr, const, dt]
           ArgKinds,       \* set of arguments  [k, dt, id]
+          ArrayParams,    \* fixed-array parameters  T a[n]  (each forms a one-parameter signature of its own)
+          ArrayArgs,      \* arguments tried on the fixed-array signatures
           MaxParams, MaxArgs,
           InitWhenEmpty   \* TRANSCRIPTION switch: does the parser mark the metadata of a parameterless
                           \* kernel as initialised?  (FALSE = the code before the C10 repair)
@@ -31,8 +35,14 @@ VARIABLES sig, meta, phase, hist
 vars == <<sig, meta, phase, hist>>
 
 SeqsUpTo(S, n) == UNION {[1..m -> S] : m \in 0..n}
-Sigs  == SeqsUpTo(ParamTypes, MaxParams)
+Sigs  == SeqsUpTo(ParamTypes, MaxParams) \cup {<<p>> : p \in ArrayParams}
 Lists == SeqsUpTo(ArgKinds, MaxArgs)
+\* the argument lists tried on a signature: the full cross product for the general signatures; for a
+\* fixed-array signature every single argument of ArrayArgs, the empty list and one list that is too long
+IsArraySig(s) == Len(s) = 1 /\ s[1] \in ArrayParams
+ListsOf(s) == IF IsArraySig(s)
+              THEN SeqsUpTo(ArrayArgs, 1) \cup {<<a, a>> : a \in {b \in ArrayArgs : b.k = "mem" /\ IsByte(b.dt)}}
+              ELSE Lists
 
 ---------------------------------------------------------------------------
 (* INTENDED *)
@@ -73,7 +83,7 @@ Compile == /\ phase = "source" /\ phase' = "fresh"
            /\ meta' = MetaFresh(sig)
            /\ hist' = Append(hist, [a |-> "compile", sig |-> sig])
            /\ UNCHANGED sig
-ListSeq == SetToSeq(Lists)
+ListSeq == SetToSeq(ListsOf(sig))
 RunAll == /\ phase \in {"fresh", "cached"}
           /\ ~\E j \in 1..Len(hist) : hist[j].a = "run" /\ hist[j].how = phase
           /\ hist' = Append(hist, [a |-> "run", how |-> phase])
@@ -88,13 +98,13 @@ Spec == Init /\ [][Next]_vars
 ---------------------------------------------------------------------------
 (* the property on the model *)
 AcceptsExactlyCompatible ==
-  phase \in {"fresh", "cached"} => \A args \in Lists : Agrees(Intended(sig, args), Decide(meta, args))
+  phase \in {"fresh", "cached"} => \A args \in ListsOf(sig) : Agrees(Intended(sig, args), Decide(meta, args))
 FreshEqualsCached ==
-  \A args \in Lists : Decide(MetaFresh(sig), args) = Decide(MetaCached(MetaFresh(sig)), args)
+  \A args \in ListsOf(sig) : Decide(MetaFresh(sig), args) = Decide(MetaCached(MetaFresh(sig)), args)
 \* sanity of the oracle: an empty list runs exactly the parameterless kernel; a list of the wrong length never runs
 OracleSanity ==
   /\ Intended(sig, <<>>) = (IF Len(sig) = 0 THEN "runs" ELSE "raises")
-  /\ \A args \in Lists : Len(args) # Len(sig) => Intended(sig, args) = "raises"
+  /\ \A args \in ListsOf(sig) : Len(args) # Len(sig) => Intended(sig, args) = "raises"
 
 Done == phase = "cached" /\ hist[Len(hist)].a = "run"
 \* the table of one signature: every list with the intended decision
